@@ -34,6 +34,10 @@ CONFIGS = [
     ('SRi', 'SRi', {'mech': 'm.yaml', 'pressure': 1.0, 'species': ['O2']}, None, ['IRm(O2)']),
     ('SDi+kept', 'SDi', {'mech': 'm.yaml', 'pressure': 1.0, 'species': ['H2', 'O2']}, 'a density', ['DI(H2)', 'DI(O2)']),
     ('RRi', 'RRi', {'mech': 'm.yaml', 'pressure': 1.0, 'reactions': [0, 2]}, None, ['R0', 'R2']),
+    # species / reactions requested in another order than the mechanism lists them: every component under its own name
+    ('SDi-rev', 'SDi', {'mech': 'm.yaml', 'pressure': 1.0, 'species': ['O2', 'H2']}, 'temp', ['DI(O2)', 'DI(H2)']),
+    ('SRi-rev', 'SRi', {'mech': 'm.yaml', 'pressure': 1.0, 'species': ['O2', 'H2']}, None, ['IRm(O2)', 'IRm(H2)']),
+    ('RRi-rev', 'RRi', {'mech': 'm.yaml', 'pressure': 1.0, 'reactions': [2, 0]}, None, ['R2', 'R0']),
 ]
 
 
@@ -51,6 +55,12 @@ def new_components(label, cell, P):
         return [ctstub.expected_prop('heat_release_rate', None, T, P, Ys)]
     if label.startswith('ENT'):
         return [ctstub.expected_prop('enthalpy_mass', None, T, P, Ys)]
+    if label.startswith('SRi-rev'):
+        return [ctstub.expected_prop('net_production_rates', k, T, P, Ys) for k in (1, 0)]
+    if label.startswith('SDi-rev'):
+        return [ctstub.expected_prop('mix_diff_coeffs_mass', k, T, P, Ys) for k in (1, 0)]
+    if label.startswith('RRi-rev'):
+        return [ctstub.expected_prop('net_rates_of_progress', k, T, P, Ys) for k in (2, 0)]
     if label.startswith('SRi'):
         return [ctstub.expected_prop('net_production_rates', 1, T, P, Ys)]
     if label.startswith('SDi'):
